@@ -165,3 +165,43 @@ theorem tee_terminates (s s' : Tee.State) (e : Tee.Ev) (h : Tee.step s e = some 
 example : Tee.step (Tee.init 2) .chunk = some ⟨.toF 1, .reading, .reading⟩ ∧ Tee.measure (Tee.init 2) = 9 := by decide
 
 end Grog.C08
+
+namespace Grog.C08
+open Grog Grog.Remote
+open Grog.Store (NS Res)
+
+/-- **Reading a blob confirms nothing.** A `Get` (the restore of a cached output, `Cas.Load`) never adds a digest to what
+    the process considers stored in every tier: a blob that was only *read* — possibly from the local cache alone — is
+    uploaded when a later target of the same build produces the same content. (A `Cas.Load` that fed the exists-memo
+    would turn the witness trace below into a dangling reference; the check replays that history, `fixed-load-then-write`.) -/
+theorem get_does_not_confirm (v : Variant) (s s' : State) (p : Store.Pid) (ns : NS) (k : Bytes) (r : Option Blob) (f : Bool)
+    (hs : step v s (.getRes p ns k r f) = some s') : s'.conf = s.conf := by
+  cases r with
+  | none =>
+    simp only [step] at hs
+    split at hs
+    · simp at hs
+    · split at hs <;> simp at hs; rw [← hs]
+  | some b =>
+    simp only [step] at hs
+    split at hs
+    · split at hs <;> simp at hs; rw [← hs]
+    · split at hs <;> simp at hs; rw [← hs]
+
+/-- load, then write the same digest in one process: the repaired model demands the upload (`existsAllRes … no`, tee `Set`)
+    before the result that references the blob may be written; skipping it is not a run of the model -/
+example :
+    (run .fixed init
+      [.localSet 0 .cas [1] ⟨[1], []⟩, .localSet 0 .target [8] ⟨[8], [[1]]⟩, .proc 1 0,
+       .getRes 1 .target [8] (some ⟨[8], [[1]]⟩) false, .getRes 1 .cas [1] (some ⟨[1], []⟩) false,   -- restore of :x from the local cache
+       .existsAllRes 1 [1] .no, .setRes 1 .cas [1] ⟨[1], []⟩ true true true,                          -- :y produces the same blob: uploaded
+       .setRes 1 .target [9] ⟨[9], [[1]]⟩ true true true]).isSome = true ∧
+    run .fixed init
+      [.localSet 0 .cas [1] ⟨[1], []⟩, .localSet 0 .target [8] ⟨[8], [[1]]⟩, .proc 1 0,
+       .getRes 1 .target [8] (some ⟨[8], [[1]]⟩) false, .getRes 1 .cas [1] (some ⟨[1], []⟩) false,
+       .setRes 1 .target [9] ⟨[9], [[1]]⟩ true true true] = none := by
+  constructor
+  · decide
+  · rfl
+
+end Grog.C08
